@@ -31,6 +31,7 @@ class Baton:
         self.status_fails = False
         self.omen_guess_pending = False
         self.out = []
+        self.popped = []                    # what PcfgQueue.next() returned, in order (None = queue empty)
 
     # ---- main side
     def main_yield(self):
@@ -102,7 +103,9 @@ def run_session(pcfg, save_filename, save_config, load, schedule, events, limit=
 
     def next_wrapper(self_):
         baton.main_yield()
-        return orig_next(self_)
+        it = orig_next(self_)
+        baton.popped.append(None if it is None else (tuple((t, j) for t, j in it['pt']), it['prob']))
+        return it
 
     def print_wrapper(guess):
         if baton.omen_guess_pending:
@@ -168,7 +171,7 @@ def run_session(pcfg, save_filename, save_config, load, schedule, events, limit=
     state = 'stopped'
     if ended == 'returned':
         state = 'exited' if 'Saving Session Info' in log else 'finished'
-    return {'out': baton.out, 'state': state, 'consumed': ''.join(baton.consumed), 'should_exit': bool(pcfg.should_exit), 'log': log,
+    return {'out': baton.out, 'popped': baton.popped, 'state': state, 'consumed': ''.join(baton.consumed), 'should_exit': bool(pcfg.should_exit), 'log': log,
             'stdout_extra': stdout_extra.getvalue()}
 
 
